@@ -16,6 +16,7 @@ package tcpmux
 
 import (
 	"bufio"
+	"bytes"
 	"fmt"
 	"io"
 	"net"
@@ -46,12 +47,17 @@ func NewHTTPConnectTCPMuxer(listener net.Listener, passthrough bool, timeout tim
 	return ret, err
 }
 
-func (muxer *HTTPConnectTCPMuxer) readHTTPConnectRequest(rd io.Reader) (host, httpUser, httpPwd string, err error) {
+func (muxer *HTTPConnectTCPMuxer) readHTTPConnectRequest(rd io.Reader) (host, httpUser, httpPwd string, remain []byte, err error) {
 	bufioReader := bufio.NewReader(rd)
 
 	req, err := http.ReadRequest(bufioReader)
 	if err != nil {
 		return
+	}
+	// Bytes the client sent right behind the request were read ahead with it; they belong to the tunnelled stream.
+	if n := bufioReader.Buffered(); n > 0 {
+		peeked, _ := bufioReader.Peek(n)
+		remain = append([]byte{}, peeked...)
 	}
 
 	if req.Method != "CONNECT" {
@@ -106,7 +112,7 @@ func (muxer *HTTPConnectTCPMuxer) getHostFromHTTPConnect(c net.Conn) (net.Conn, 
 	reqInfoMap := make(map[string]string, 0)
 	sc, rd := libnet.NewSharedConn(c)
 
-	host, httpUser, httpPwd, err := muxer.readHTTPConnectRequest(rd)
+	host, httpUser, httpPwd, remain, err := muxer.readHTTPConnectRequest(rd)
 	if err != nil {
 		return nil, reqInfoMap, err
 	}
@@ -119,6 +125,16 @@ func (muxer *HTTPConnectTCPMuxer) getHostFromHTTPConnect(c net.Conn) (net.Conn, 
 	outConn := c
 	if muxer.passthrough {
 		outConn = sc
+	} else if len(remain) > 0 {
+		outConn = &readAheadConn{Conn: c, r: io.MultiReader(bytes.NewReader(remain), c)}
 	}
 	return outConn, reqInfoMap, nil
 }
+
+// readAheadConn first replays the bytes that were read ahead of the stream, then reads from the connection.
+type readAheadConn struct {
+	net.Conn
+	r io.Reader
+}
+
+func (c *readAheadConn) Read(p []byte) (int, error) { return c.r.Read(p) }
